@@ -1,0 +1,25 @@
+// SPDX-FileCopyrightText: 2022-present Intel Corporation
+//
+// SPDX-License-Identifier: Apache-2.0
+
+//go:build verif
+
+// Verification hooks: constructors and wrappers used only by the external verification harness
+// (built with -tags verif).  Nothing here changes the behaviour of the package.
+
+package transaction
+
+import (
+	configapi "github.com/onosproject/onos-api/go/onos/config/v3"
+	"github.com/onosproject/onos-config/pkg/pluginregistry"
+	"github.com/onosproject/onos-config/pkg/southbound/gnmi"
+	"github.com/onosproject/onos-config/pkg/store/topo"
+	configurationstore "github.com/onosproject/onos-config/pkg/store/v3/configuration"
+	transactionstore "github.com/onosproject/onos-config/pkg/store/v3/transaction"
+)
+
+// NewReconcilerForVerif returns the v3 transaction reconciler so that single Reconcile steps can be driven
+func NewReconcilerForVerif(nodeID configapi.NodeID, transactions transactionstore.Store, configurations configurationstore.Store,
+	conns gnmi.ConnManager, topo topo.Store, plugins pluginregistry.PluginRegistry) *Reconciler {
+	return &Reconciler{nodeID: nodeID, transactions: transactions, configurations: configurations, conns: conns, topo: topo, plugins: plugins}
+}
